@@ -211,7 +211,16 @@ func genScalar(r *rng) interface{} {
 	}
 }
 
-func genKey(r *rng) string { return keyAlphabet[r.intn(len(keyAlphabet))] }
+// (mostly the small alphabet, so that operations meet existing keys; now and then a key that differs from one of
+// them only by case or by Unicode normalisation, or that holds a quote, a NUL, digits only, or is very long)
+var rareKeys = []string{"A", "AB", "e\u0301", "\"", "\x00", "1", "-0", "a b", " a", "null", strings.Repeat("k", 300), "a\nb", "\u2028"}
+
+func genKey(r *rng) string {
+	if r.intn(8) == 0 {
+		return rareKeys[r.intn(len(rareKeys))]
+	}
+	return keyAlphabet[r.intn(len(keyAlphabet))]
+}
 
 func genRowValue(r *rng, depth int) jsonline.Row {
 	row := jsonline.NewRow()
